@@ -147,6 +147,21 @@ def src_limits():
     for k, s in enumerate(["Fonctionnalit\u00e9: f\n  Sc\u00e9nario: s\n    Soit x\n", "# language: en\nFeature: f\n  Scenario: s\n    Given x\n", "Fonctionnalit\u00e9: g\n  Sc\u00e9nario: t\n    Soit y\n",
                            "# language: de\nFunktionalit\u00e4t: f\n  Szenario: s\n    Angenommen x\n", "Feature: english without header\n  Scenario: s\n    Given x\n", "# language: fr\nFonctionnalit\u00e9: h\n", "Fonctionnalit\u00e9: i\n"]):
         out.append((f"french-default:{k}", s, "fr"))
+    # counts beyond any small-number threshold (caches, recursion depth, fixed-size buffers): more than a thousand of each repeatable construct
+    N = 1100
+    out.append(("count:tags-on-line", " ".join(f"@t{i}" for i in range(300)) + "\nFeature: f\n  " + "".join(f"@u{i}" for i in range(300)) + "\n  Scenario: s\n", "en"))
+    out.append(("count:tag-lines", "Feature: f\n" + "".join(f"  @t{i}\n" for i in range(300)) + "  Scenario: s\n    Given x\n", "en"))
+    out.append(("count:steps", "Feature: f\n  Background:\n" + "".join(f"    * b{i}\n" for i in range(300)) + "  Scenario: s\n" + "".join(f"    {('Given', 'And', 'When', 'But', 'Then', '*')[i % 6]} x{i}\n" for i in range(N)), "en"))
+    out.append(("count:example-rows", "Feature: f\n  Scenario Outline: o <a>\n    Given <a>\n    Examples:\n      | a |\n" + "".join(f"      | {i} |\n" for i in range(N)), "en"))
+    out.append(("count:examples-tables", "Feature: f\n  Scenario Outline: o <a>\n    Given <a>\n" + "".join(f"    @e{i}\n    Examples: e{i}\n      | a |\n      | {i} |\n" for i in range(300)), "en"))
+    out.append(("count:rules", "Feature: f\n" + "".join(f"  Rule: r{i}\n    Background:\n      Given b{i}\n    Example: e\n      Then t\n" for i in range(300)), "en"))
+    out.append(("count:columns", "Feature: f\n  Scenario Outline: o\n    Given " + " ".join(f"<c{i}>" for i in range(70)) + "\n    Examples:\n      |" + "|".join(f"c{i}" for i in range(70)) + "|\n      |" + "|".join(f"v{i}" for i in range(70)) + "|\n", "en"))
+    out.append(("count:docstring-lines", "Feature: f\n  Scenario: s\n    Given x\n      \"\"\"\n" + "".join(f"      line {i}\n" for i in range(N)) + "      \"\"\"\n", "en"))
+    out.append(("count:description-lines", "Feature: f\n" + "".join(f"  text {i}\n" if i % 7 else "  # c\n" for i in range(N)) + "  Scenario: s\n", "en"))
+    out.append(("count:comments-and-blanks", "Feature: f\n  Scenario: s\n" + "".join(("  # c%d\n" % i) if i % 2 else "\n" for i in range(N)) + "    Given x\n" + "".join(f"  # d{i}\n" for i in range(N)), "en"))
+    out.append(("count:table-rows", "Feature: f\n  Scenario: s\n    Given x\n" + "".join(f"      | {i} | {i % 7} |\n" for i in range(N)), "en"))
+    out.append(("count:scenarios-with-tags", "@f\nFeature: f\n" + "".join(f"  @s{i}\n  Scenario: s{i}\n    Given x\n" for i in range(400)), "en"))
+    out.append(("count:errors", "Feature: f\n" + "".join(f"junk {i}\n" for i in range(N)), "en"))
     # documents that leave a matcher in every non-initial state, each followed by ordinary ones (for re-use passes)
     for k, s in enumerate(["Feature: q\n  Scenario: s\n    Given x\n      \"\"\"\n      open\n", "Feature: ok\n  Scenario: s\n    Given x\n      ```\n      c\n      ```\n    And y\n      \"\"\"\n      d\n      \"\"\"\n",
                            "Feature: b\n  Scenario: s\n    Given x\n        ```\n     open\n", "Feature: i\n    indented description\n  Scenario: s\n    Given x\n      \"\"\"\n      d\n      \"\"\"\n",
@@ -356,4 +371,98 @@ def compiler_reuse_pass(rep: Reporter, sources, label: str = "compiler-reuse") -
             if rep.prop in own:
                 rep.violation({"kind": "compiler-reuse"}, {"engine": "reuse", "what": "a Compiler that compiled other documents before gives different pickles (ids aside) than a fresh one",
                                                           "source": s, "fresh": fresh[:3], "reused": again[:3]})
+    rep.traces += n
+
+
+def usage_variants_pass(rep: Reporter, sources, label: str = "usage") -> None:
+    """The same source handed over in every way the API allows -- a str, a subclass of str, a TokenScanner made from the text, a file named by a str path, a TokenScanner
+    made from that path; default matcher / default builder left out or given explicitly; stop_at_first_error assigned after construction -- gives the same outcome."""
+    import sessions as S
+    import tempfile, shutil, os
+    from gherkin.parser import Parser
+    from gherkin.ast_builder import AstBuilder
+    from gherkin.token_matcher import TokenMatcher
+    from gherkin.token_scanner import TokenScanner
+    from gherkin.stream.id_generator import IdGenerator
+
+    class Text(str):
+        pass
+
+    d = tempfile.mkdtemp(prefix="verif-usage-")
+    n = 0
+    try:
+        for k, (name, s, dialect) in enumerate(sources):
+            if known_finding_input(s) or not s:
+                continue
+            n += 1
+            for stop in (False, True):
+                def parser():
+                    p = Parser(AstBuilder(IdGenerator()))
+                    p.stop_at_first_error = stop
+                    return p
+                ref, _ = S.outcome(lambda: parser().parse(s, TokenMatcher(dialect)))
+                variants = {"str subclass": lambda: parser().parse(Text(s), TokenMatcher(dialect)),
+                            "TokenScanner(text)": lambda: parser().parse(TokenScanner(s), TokenMatcher(dialect))}
+                if dialect == "en":
+                    variants["default matcher"] = lambda: parser().parse(s)
+                    variants["default builder"] = lambda: _default_builder(Parser(), stop).parse(s, TokenMatcher("en"))
+                if "\r" not in s and "\x00" not in s:
+                    path = os.path.join(d, f"{k}.feature")
+                    with open(path, "w", encoding="utf8", newline="") as fh:
+                        fh.write(s)
+                    variants["file path"] = lambda: parser().parse(path, TokenMatcher(dialect))
+                    variants["TokenScanner(path)"] = lambda: parser().parse(TokenScanner(path), TokenMatcher(dialect))
+                for how, fn in variants.items():
+                    got, _ = S.outcome(fn)
+                    rep.case((label, how, stop, name))
+                    if got != ref:
+                        rep.violation({"kind": "usage-variant"}, {"engine": "usage", "what": f"the source given as {how} (stop_at_first_error={stop}) gives a different outcome than the same text given as a str",
+                                                                  "source": s, "as_str": str(ref)[:400], "variant": str(got)[:400]})
+                        break
+    finally:
+        shutil.rmtree(d, ignore_errors=True)
+    rep.traces += n
+
+
+def _default_builder(parser, stop):
+    parser.stop_at_first_error = stop
+    return parser
+
+
+def many_uses_pass(rep: Reporter, n: int, label: str = "many-uses") -> None:
+    """More uses of ONE Parser / TokenMatcher / Compiler than any cache or counter threshold: n distinct small documents (and one document n times); every result
+    equals the result from fresh objects (pickle and node ids relative to the first id of the document)."""
+    import sessions as S, gen
+    from gherkin.parser import Parser
+    from gherkin.ast_builder import AstBuilder
+    from gherkin.token_matcher import TokenMatcher
+    from gherkin.pickles.compiler import Compiler
+    from gherkin.stream.id_generator import IdGenerator
+    shapes = ["Feature: f{i}\n  Scenario: s{i}\n    Given x{i}\n", "@t{i}\nFeature: g\n  Scenario Outline: o <a{i}>\n    Given <a{i}> y\n    Examples:\n      | a{i} |\n      | v{i} |\n",
+              "Feature: h\n  Background:\n    Given b{i}\n  Rule: r{i}\n    Example: e\n      When w\n        | c{i} | d |\n      Then t\n        \"\"\" m{i}\n        d{i}\n        \"\"\"\n",
+              "Feature: bad{i}\n  junk{i}\n  Scenario: s\n    Given x\n      | a |\n      | a | b{i} |\n  @bad tag{i}\n", "# language: fr\nFonctionnalité: f{i}\n  Scénario: s\n    Soit x{i}\n"]
+    idg = IdGenerator()
+    parser, matcher, comp = Parser(AstBuilder(idg)), TokenMatcher(), Compiler(idg)
+
+    def run(p, m, c, g, s):
+        def go():
+            g._id_counter = 0
+            doc = p.parse(s, m)
+            doc["uri"] = "u"
+            pk = c.compile(doc)
+            return doc, pk
+        try:
+            return ("ok",) + go()
+        except Exception as x:  # noqa: BLE001
+            return ("exception", type(x).__name__, str(x)[:300])
+    for i in range(n):
+        s = shapes[i % len(shapes)].replace("{i}", str(i)) if i % 3 else shapes[0].replace("{i}", "")
+        g = IdGenerator()
+        fresh = run(Parser(AstBuilder(g)), TokenMatcher(), Compiler(g), g, s)
+        used = run(parser, matcher, comp, idg, s)
+        rep.case((label, i))
+        if fresh != used:
+            rep.violation({"kind": "many-uses"}, {"engine": "reuse", "what": f"use number {i + 1} of one Parser / TokenMatcher / Compiler gives a different result than fresh objects", "source": s,
+                                                   "fresh": str(fresh)[:300], "used": str(used)[:300]})
+            break
     rep.traces += n
